@@ -163,6 +163,37 @@ def D24():
     assert len(outs) == 1, f"{len(outs)} distinct outputs over 8 hash seeds"
 
 
+def D31():
+    import typing
+    samples = [{"x": ["a,b"]}, {"x": ["a", "b"]}]
+    code, _ = _pipeline(samples)
+    m = _load(code)
+    for s in samples:
+        m.Root.parse_obj(s)
+
+
+def D32():
+    from json_to_models.generator import MetadataGenerator
+    from json_to_models.registry import ModelRegistry, ModelFieldsNumberMatch
+    from json_to_models.dynamic_typing import StringSerializableRegistry, IntString, FloatString, BooleanString, DUnion, DList
+    samples = [{"name": "-", "x": "1"}, {"c": {"b": {"x": [None, "s", []], "y": "T"}}}, {"y": [{"name": []}, {"x": {}}, {"x": [[{}]]}]}]
+    reg = StringSerializableRegistry(); reg.add(cls=IntString); reg.add(replace_types=(IntString,), cls=FloatString); reg.add(cls=BooleanString)
+    g = MetadataGenerator(reg); r = ModelRegistry(ModelFieldsNumberMatch(2))
+    r.process_meta_data(g.generate(*samples), "Root"); r.merge_models(g)
+
+    from json_to_models.dynamic_typing import ModelPtr
+
+    def lists_in_union(t):
+        if isinstance(t, ModelPtr):
+            return False
+        if isinstance(t, dict):
+            return any(lists_in_union(v) for v in t.values())
+        if isinstance(t, DUnion) and sum(isinstance(x, DList) for x in t.types) > 1:
+            return True
+        return any(lists_in_union(x) for x in t) if hasattr(t, "__iter__") and not isinstance(t, type) else False
+    assert not any(lists_in_union(m.type) for m in r.models), "a union with several list members survives merge_models"
+
+
 def D13():
     samples = [{"a": None}, {"a": ["1"]}]
     for fw in ("attrs", "dataclasses"):
